@@ -45,6 +45,24 @@ def check(case):
             except (ValueError, KeyError, RuntimeError):
                 continue
             res.fail(("missing_parameter_accepted", how), dropped=drop, spec=sp2)
+        # a refused model stays refused: the second and third attempt on the same object must fail as well
+        # (a refusal that leaves the model flagged as initialised would let NaN rates through afterwards)
+        with specmod.quiet():
+            M = specmod.to_model(sp2, initialize=False)
+        for attempt, what in enumerate(["initialize", "initialize", "interface", "simulate"]):
+            try:
+                with specmod.quiet():
+                    if what == "initialize":
+                        M.py_initialize()
+                    elif what == "interface":
+                        ModelCSimInterface(M)
+                    else:
+                        from bioscrape.simulator import py_simulate_model
+                        py_simulate_model(np.array([0.0, 0.5, 1.0]), Model=M)
+            except (ValueError, KeyError, RuntimeError):
+                continue
+            res.fail(("missing_parameter_accepted_on_a_later_attempt", what), attempt=attempt + 1, dropped=drop, spec=sp2)
+            break
         return res
 
     with specmod.quiet():
